@@ -13,16 +13,16 @@ from props._exprcheck import pretty
 ID = "C02"
 SECTIONS = ["ops", "mc"]
 LEAN_MODULES = ["QExPy.Props.C02"]
-THEOREMS_PLANNED = [
+THEOREMS = [
+    "QExPy.C02_sample_size",
     "QExPy.C02_chol2_correct", "QExPy.C02_chol2_none", "QExPy.C02_chol3_correct",
-    "QExPy.C02_chol3_none", "QExPy.C02_factor_cases",
-    "QExPy.C02_sample_mean_transform1", "QExPy.C02_sample_var_transform1",
+    "QExPy.C02_chol3_none", "QExPy.C02_witness_not_posdef", "QExPy.C02_chol_matrix",
+    "QExPy.C02_factor_cases",
     "QExPy.C02_sample_mean_transform", "QExPy.C02_sample_cov_transform",
-    "QExPy.C02_standardised_draws2",
-    "QExPy.C02_result_def", "QExPy.C02_discard", "QExPy.C02_kept_le",
-    "QExPy.C02_sample_size", "QExPy.C02_affine_exact1", "QExPy.C02_affine_exact2",
+    "QExPy.C02_standardised_draws", "QExPy.C02_affine_exact",
+    "QExPy.C02_result_def", "QExPy.C02_result_moments", "QExPy.C02_discard", "QExPy.C02_kept_le",
+    "QExPy.C02_scaleShift_moments",
 ]
-THEOREMS = ["QExPy.C02_sample_size"]
 RULE = ("seeded formula DAGs over 1-3 measurements (all operators, shared sub-expressions), "
         "sigma/|mu| in [1e-3, 0.5] or 0, correlation structure in {none, random PD, near-singular "
         "PD, jointly non-PD, rho=+-1 for two sources}, sample size 7/100/2000 set globally or per "
